@@ -223,6 +223,26 @@ func (rp *replayer) build(term string, t types.Type, depth int, st *hstate) *qno
 	return &qnode{typ: t, kind: "opaque"}
 }
 
+func (rp *replayer) zeroExpr(t types.Type) string {
+	if t == nil {
+		return "nil"
+	}
+	switch u := t.Underlying().(type) {
+	case *types.Basic:
+		switch {
+		case u.Info()&types.IsNumeric != 0:
+			return rp.typeStr(t) + "(0)"
+		case u.Info()&types.IsString != 0:
+			return rp.typeStr(t) + "(\"\")"
+		case u.Info()&types.IsBoolean != 0:
+			return rp.typeStr(t) + "(false)"
+		}
+	case *types.Struct:
+		return rp.typeStr(t) + "{}"
+	}
+	return "nil"
+}
+
 func (rp *replayer) buildStructAt(ref string, t types.Type, depth int, st *hstate) *qnode {
 	vc := rp.vc
 	s := t.Underlying().(*types.Struct)
@@ -323,7 +343,7 @@ func (rp *replayer) goExpr(n *qnode) string {
 		}
 		return fmt.Sprintf("%s{%s}", rp.typeStr(n.typ), strings.Join(fs, ", "))
 	}
-	return "nil"
+	return rp.zeroExpr(n.typ)
 }
 
 func maskBits(b int) uint64 {
@@ -336,7 +356,14 @@ func maskBits(b int) uint64 {
 // ---- replay driver ------------------------------------------------------------------------------------
 
 func (eng *Engine) replayObligation(t target, name, kind, verif, prop string) replayResult {
-	const N = 4
+	res := eng.replayObligationN(t, name, kind, verif, prop, 4)
+	if !res.reproduced && strings.Contains(res.text, "answered \"unsat\"") {
+		res = eng.replayObligationN(t, name, kind, verif, prop, 28)
+	}
+	return res
+}
+
+func (eng *Engine) replayObligationN(t target, name, kind, verif, prop string, N int) replayResult {
 	vcq, err := eng.buildVCq(t.fn, t.ct, N)
 	if err != nil {
 		return replayResult{false, "no-failing-input-found: candidate search not available for this function: " + err.Error()}
@@ -436,8 +463,20 @@ func (eng *Engine) runReplay(t target, rp *replayer, args []string, name, kind, 
 		var ps []string
 		for i := 0; i < nres; i++ {
 			ps = append(ps, fmt.Sprintf("fmt.Sprintf(\"r%d=%%#v\", r%d)", i, i))
+			rt := fn.Signature.Results().At(i).Type()
+			switch u := rt.Underlying().(type) {
+			case *types.Basic:
+				switch {
+				case u.Info()&types.IsInteger != 0:
+					print += fmt.Sprintf("\tfmt.Printf(\"GVC-RESULT %d int %%d\\n\", r%d)\n", i, i)
+				case u.Info()&types.IsBoolean != 0:
+					print += fmt.Sprintf("\tfmt.Printf(\"GVC-RESULT %d bool %%v\\n\", r%d)\n", i, i)
+				}
+			case *types.Interface, *types.Pointer, *types.Map, *types.Slice:
+				print += fmt.Sprintf("\tfmt.Printf(\"GVC-RESULT %d nil %%v\\n\", r%d == nil)\n", i, i)
+			}
 		}
-		print = "\tfmt.Println(\"GVC-REPLAY returned:\", " + strings.Join(ps, ", ") + ")\n"
+		print += "\tfmt.Println(\"GVC-REPLAY returned:\", " + strings.Join(ps, ", ") + ")\n"
 	} else {
 		print = "\tfmt.Println(\"GVC-REPLAY returned\")\n"
 	}
@@ -490,6 +529,13 @@ func TestGvcReplay(t *testing.T) {
 	if kind == "safety" && (strings.Contains(outS, "GVC-REPLAY panic:") || strings.Contains(outS, "panic:") || strings.Contains(outS, "fatal error")) {
 		return replayResult{true, report}
 	}
+	if kind == "post" && strings.Contains(outS, "GVC-REPLAY returned") {
+		if ok, why := eng.evalPost(t, rp, name, outS, verif, prop); ok {
+			return replayResult{true, report + "\n" + why}
+		} else if why != "" {
+			report += "\n" + why
+		}
+	}
 	if strings.Contains(outS, "test timed out") || ctx.Err() != nil {
 		if kind == "variant" {
 			return replayResult{true, report}
@@ -507,3 +553,141 @@ func trimOutput(s string) string {
 }
 
 var _ = ssa.GlobalDebug
+
+
+func (x *sexp) String() string {
+	if x.list == nil {
+		return x.atom
+	}
+	var ps []string
+	for _, c := range x.list {
+		ps = append(ps, c.String())
+	}
+	return "(" + strings.Join(ps, " ") + ")"
+}
+
+// evalPost decides whether the observed results of the real run violate the postcondition clause, by asking
+// the solver to evaluate the clause with the inputs pinned to the candidate and the results to what was observed.
+// Only used when the clause reads no heap the function may write (then entry and exit heaps agree for it).
+func (eng *Engine) evalPost(t target, rp *replayer, name, out, verif, prop string) (bool, string) {
+	label := name[strings.LastIndex(name, "post:")+5:]
+	if i := strings.Index(label, "@ret"); i >= 0 {
+		label = label[:i]
+	}
+	var cl *Clause
+	for _, c := range t.ct.Ensures {
+		if c.Label == label {
+			cl = c
+		}
+	}
+	if cl == nil {
+		return false, ""
+	}
+	vc := newVC(eng, t.fn, t.ct)
+	vc.qf = rp.K
+	ok := false
+	why := ""
+	func() {
+		defer func() {
+			if r := recover(); r != nil {
+				switch e := r.(type) {
+				case unsupportedErr:
+					why = "clause evaluation unavailable: " + e.msg
+				case specErr:
+					why = "clause evaluation unavailable: " + e.msg
+				default:
+					panic(r)
+				}
+			}
+		}()
+		vc.emit(preludeBase)
+		st := vc.baseState()
+		env := &specEnv{vc: vc, pkg: rp.pkg, vars: map[string]specVal{}, st: st, old: st, where: "replay evaluation"}
+		rp2 := &replayer{eng: eng, vc: vc, K: rp.K, pkg: rp.pkg, imps: map[string]bool{}}
+		for _, p := range t.fn.Params {
+			n := vc.fresh("p."+p.Name(), vc.sortOf(p.Type()))
+			env.vars[p.Name()] = specVal{term: n, typ: p.Type()}
+			rp2.build(n, p.Type(), 0, st)
+		}
+		if len(rp2.nodes) != len(rp.nodes) {
+			why = "clause evaluation unavailable: input shapes differ"
+			return
+		}
+		// heaps read by the clause must not be written by the function
+		sym := map[string]string{}
+		var order []string
+		probe := &specEnv{vc: vc, pkg: rp.pkg, vars: env.vars, symHeaps: sym, symOrder: &order, symOld: sym, symOldOrder: &order, where: "replay evaluation"}
+		sig := t.fn.Signature
+		var results []Val
+		var obs []string
+		for i := 0; i < sig.Results().Len(); i++ {
+			rt := sig.Results().At(i).Type()
+			n := vc.fresh("res", vc.sortOf(rt))
+			results = append(results, Val{t: n})
+			for _, l := range strings.Split(out, "\n") {
+				var idx int
+				var k, v string
+				if _, err := fmt.Sscanf(l, "GVC-RESULT %d %s %s", &idx, &k, &v); err == nil && idx == i {
+					switch k {
+					case "int":
+						iv, _ := strconv.ParseInt(v, 10, 64)
+						obs = append(obs, eq(n, num(iv)))
+					case "bool":
+						obs = append(obs, eq(n, v))
+					case "nil":
+						var isNil string
+						switch rt.Underlying().(type) {
+						case *types.Interface:
+							isNil = eq(sx("i-tag", n), "0")
+						case *types.Slice:
+							isNil = eq(sArr(n), "0")
+						default:
+							isNil = eq(n, "0")
+						}
+						if v == "true" {
+							obs = append(obs, isNil)
+						} else {
+							obs = append(obs, not(isNil))
+						}
+					}
+				}
+			}
+		}
+		bindResults(probe, sig, results)
+		probe.trBool(cl.Expr)
+		writes := eng.bodyEffects(t.fn)
+		for _, h := range order {
+			if writes[h] || writes["*"] {
+				why = "clause evaluation unavailable: the clause reads heap " + h + ", which the function may write"
+				return
+			}
+		}
+		bindResults(env, sig, results)
+		c := env.trBool(cl.Expr)
+		var sb strings.Builder
+		for _, l := range vc.out {
+			sb.WriteString(l + "\n")
+		}
+		for i, n := range rp2.nodes {
+			sb.WriteString(fmt.Sprintf("(assert (= %s %s))\n", n.term, rp.nodes[i].val.String()))
+		}
+		for _, o := range obs {
+			sb.WriteString(fmt.Sprintf("(assert %s)\n", o))
+		}
+		sb.WriteString("(push 1)\n(assert " + c + ")\n(check-sat)\n(pop 1)\n(push 1)\n(assert (not " + c + "))\n(check-sat)\n(pop 1)\n")
+		dir := filepath.Join(verif, "work", prop, "replay")
+		qfile := filepath.Join(dir, sanitize(name)+".eval.smt2")
+		os.WriteFile(qfile, []byte(sb.String()), 0o644)
+		ctx, cancel := context.WithTimeout(context.Background(), 40*time.Second)
+		defer cancel()
+		o, _ := exec.CommandContext(ctx, "z3-new", "-smt2", "-t:15000", qfile).CombinedOutput()
+		ls := strings.Fields(string(o))
+		if len(ls) >= 2 && ls[0] == "unsat" && ls[1] == "sat" {
+			ok = true
+			why = "REPLAY EVALUATION: with the inputs above and the results observed on the real code, the clause\n    " + cl.Src + "\nevaluates to false (solver: clause unsat, negation sat; query " + qfile + ")"
+		} else {
+			why = "clause evaluation inconclusive: " + strings.Join(ls, " ")
+		}
+	}()
+	return ok, why
+}
